@@ -1,7 +1,7 @@
 package engine
 
 import (
-	"fmt"
+	"strconv"
 	"net/netip"
 	"sort"
 	"strings"
@@ -160,6 +160,6 @@ func (w *world) SockOpened(s *vnet.Sim, k *vnet.Socket) {
 		if err != nil {
 			continue
 		}
-		s.After(e.After, "feed", func() { s.DeliverUDP(from, dst, e.Data, fmt.Sprintf("feed:%d:%s", i, e.Class)) })
+		s.After(e.After, "feed", func() { s.DeliverUDP(from, dst, e.Data, "feed:" + strconv.Itoa(i) + ":" + e.Class) })
 	}
 }
